@@ -82,7 +82,7 @@ def decode_alt(sv):
         return sv
 
 
-def abstract_tables(space, status, entry_id):
+def abstract_tables(space, status, entry_id, used_names=None):
     """-> (abs, states) in the vocabulary of GIRMachine.Covers"""
     rows = [r for r in space if r.get("method_id") == entry_id]
     by_index = {int(r["index"]): r for r in rows}
@@ -153,11 +153,25 @@ def abstract_tables(space, status, entry_id):
         idx = [x for x in sorted(set(flat(jlist(sym.get("states"))))) if 0 <= x < n]
         abs_.append({"s": key[0], "n": key[1], "idx": resolve(idx, nm), "nm": [{"sid": k, "idx": sorted(x)} for k, x in sorted(nm.items())]})
         seen.add(key)
-    # symbols of statements without a status row (robustness: every symbol row counts for its own statement and name)
+    # The per-context status table keeps one row per (context hash, statement): when a callee is analysed twice under the same last call site the
+    # second analysis replaces the first there, but the symbols of both analyses stay in the space.  Every symbol row of a statement whose name is
+    # not also an operand of that statement is a definition of it, and counts (with the newest-copy map of the statement's stored row, if any).
+    nm_of_stmt = {}
+    for srow in status:
+        nm_of_stmt.setdefault(int(srow["stmt_id"]), newest_map(srow))
+    listed = {(a["s"], a["n"], tuple(a["idx"])) for a in abs_}
     for r in rows:
-        if r.get("symbol_or_state", 0) == 0 and (int(r.get("stmt_id", 0)), str(r.get("name"))) not in seen:
-            idx = sorted(set(flat(jlist(r.get("states")))))
-            abs_.append({"s": int(r.get("stmt_id", 0)), "n": str(r.get("name")), "idx": [x for x in idx if 0 <= x < n], "nm": []})
+        if r.get("symbol_or_state", 0) != 0:
+            continue
+        sid, name = int(r.get("stmt_id", 0)), str(r.get("name"))
+        if name in (used_names or {}).get(sid, ()):
+            continue
+        nm = nm_of_stmt.get(sid, {})
+        idx = resolve([x for x in sorted(set(flat(jlist(r.get("states"))))) if 0 <= x < n], nm)
+        if (sid, name, tuple(idx)) in listed:
+            continue
+        listed.add((sid, name, tuple(idx)))
+        abs_.append({"s": sid, "n": name, "idx": idx, "nm": [{"sid": k, "idx": sorted(x)} for k, x in sorted(nm.items())]})
     return abs_, states
 
 
@@ -174,15 +188,26 @@ def case_of(job, r):
     gir = r["exports"].get("gir") or []
     rows = [x for _, rs in G.units_of(gir) for x in rs]
     entry = [x["stmt_id"] for x in rows if x.get("operation") == "method_decl" and x.get("name") == "%unit_init"]
-    abs_, states = abstract_tables(r["exports"].get("s2space_p3") or [], r["exports"].get("stmt_status_p3") or [], entry[0] if entry else -1)
+    used = {}
+    for x in rows:
+        names = {str(x.get(f)) for f in ("operand", "operand2", "name", "receiver_object", "source", "array", "index", "condition", "receiver") if x.get(f)}
+        if x.get("operation") in ("field_write", "array_write"):
+            names -= {str(x.get("receiver_object")), str(x.get("array"))}      # the receiver is what these statements define
+        if x.get("operation") == "parameter_decl":
+            names = set()
+        names |= set(G.arg_list(x.get("positional_args")))
+        used[x["stmt_id"]] = names
+    abs_, states = abstract_tables(r["exports"].get("s2space_p3") or [], r["exports"].get("stmt_status_p3") or [], entry[0] if entry else -1, used)
     return {"name": ch.name, "rows": [G.machine_row(x) for x in rows], "temps": G.temps_of(rows), "expected": [], "start": "", "start_id": 0,
             "check": "values", "flows": [], "param_sources": [], "edges": [], "analysed": [], "abs": abs_, "states": states, "source": ch.render(),
             "_lines": {x["stmt_id"]: int(x.get("start_row", 0)) + 1 for x in rows}}
 
 
-def collect(tier, seed, v, root):
+def collect(tier, seed, v, root, keep=None):
     """-> (cases, verdicts, totals): shared by C08 and C09."""
     chains = VG.universe(tier, seed)
+    if keep is not None:
+        chains = [c for c in chains if keep(c.name)]
     jobs = build(chains, root)
     res = C.lian_batch(jobs)
     cases = []
